@@ -144,6 +144,9 @@ def _format_markdown_value(value: Any) -> str:
         # Format inline map as key: value pairs
         pairs = [f"{k}: {_format_markdown_value(v)}" for k, v in value.pairs.items()]
         return ", ".join(pairs)
+    elif isinstance(value, HolographicValue):
+        # I3: the pattern text, not the dataclass repr (same rendering as the emitter and as json/yaml)
+        return value.raw_pattern
     else:
         # Regular values are stringified directly
         return str(value)
